@@ -291,6 +291,12 @@ func checkListing(c *run.Ctx, b []byte, lst []byte, ops []rec.Op) (sig, msg stri
 	}
 	reset := ops[0]
 	sawVB, sawPal := false, false
+	// More chunks than the two kinds there are: some identifier repeats. The
+	// listing is then applied chunk by chunk (entries a later palette chunk does
+	// not list keep what they had) and the outcome compared with Reset's arguments.
+	repeated := nch > 2 || c11RepeatedMIDs(b)
+	listedPal := ivg.DefaultPalette
+	var lastVB [4]lline
 	for ch := 0; ch < nch; ch++ {
 		l, ok = next()
 		if !ok || reChunkL.FindStringSubmatch(l.text) == nil {
@@ -312,9 +318,33 @@ func checkListing(c *run.Ctx, b []byte, lst []byte, ops []rec.Op) (sig, msg stri
 				if !ok {
 					return "metadata-line", "viewBox number missing"
 				}
+				if repeated {
+					lastVB[k] = l // judged for the last viewBox chunk only (below)
+					continue
+				}
 				if s := lineNumber(l, want[k], nkCoord, true); s != "" {
 					return "viewbox-number", s
 				}
+			}
+		} else if repeated {
+			// several chunks: the listing is applied chunk by chunk, as the decoder does,
+			// and the outcome compared with what Reset received
+			sawPal = true
+			l, ok = next()
+			ph := rePalHdr.FindStringSubmatch(l.text)
+			if !ok || ph == nil || len(l.hex) != 1 {
+				return "metadata-line", "palette header line: " + l.text
+			}
+			cnt, _ := strconv.Atoi(ph[1])
+			for k := 0; k < cnt; k++ {
+				l, ok = next()
+				pc := rePalCol.FindStringSubmatch(l.text)
+				if !ok || pc == nil {
+					return "metadata-line", "palette colour line: " + l.text
+				}
+				var v [4]uint8
+				fmt.Sscanf(pc[1], "%02x%02x%02x%02x", &v[0], &v[1], &v[2], &v[3])
+				listedPal[k] = color.RGBA{v[0], v[1], v[2], v[3]}
 			}
 		} else {
 			sawPal = true
@@ -349,6 +379,20 @@ func checkListing(c *run.Ctx, b []byte, lst []byte, ops []rec.Op) (sig, msg stri
 				}
 			}
 		}
+	}
+	if repeated && sawVB {
+		want := [4]float32{reset.VB.MinX, reset.VB.MinY, reset.VB.MaxX, reset.VB.MaxY}
+		for k := 0; k < 4; k++ {
+			if s := lineNumber(lastVB[k], want[k], nkCoord, true); s != "" {
+				return "viewbox-number", "several chunks, the last viewBox chunk: " + s
+			}
+		}
+	}
+	if repeated && sawPal && listedPal != *reset.Pal {
+		k := 0
+		for ; listedPal[k] == reset.Pal[k]; k++ {
+		}
+		return "palette-color", fmt.Sprintf("several chunks: entry %d listed as %v in the end, delivered %v", k, listedPal[k], reset.Pal[k])
 	}
 	if !sawVB && reset.VB != ivg.DefaultViewBox {
 		return "viewbox-number", "no viewBox chunk listed but a non-default viewBox delivered"
@@ -553,6 +597,23 @@ func c11OtherListing() []byte {
 	return c11OtherLst
 }
 
+// c11RepeatedMIDs reports whether the (decoder-accepted) stream has two chunks
+// with the same identifier.
+func c11RepeatedMIDs(b []byte) bool {
+	m, err := ref.ParseMeta(b)
+	if err != nil {
+		return false
+	}
+	seen := map[uint32]bool{}
+	for _, id := range m.MIDs {
+		if seen[id] {
+			return true
+		}
+		seen[id] = true
+	}
+	return false
+}
+
 func c11Judge(c *run.Ctx, b []byte, family string) {
 	c.Input(b)
 	var ops []rec.Op
@@ -610,7 +671,18 @@ func c11Judge(c *run.Ctx, b []byte, family string) {
 func c11Structured(c *run.Ctx, idx uint64) {
 	r := c.Rng(idx)
 	var b []byte
-	if idx%4 == 3 {
+	if idx%16 == 7 {
+		// a metadata section whose chunk identifiers repeat (the decoder accepts it):
+		// Decode and Disassemble must agree on what it amounts to
+		var a gen.Asm
+		a.Magic()
+		a.MetadataRepeated(r)
+		for n := r.Intn(4); n > 0; n-- {
+			a.Instr(r, false, gen.StylingOpcode(r))
+		}
+		b = a.B
+		c.Count("repeated_metadata_identifiers", 1)
+	} else if idx%4 == 3 {
 		// metadata-heavy: reuse the C13 style generator through gen.Stream's metadata
 		b = gen.Stream(r, r.Range(0, 6), false, 0)
 	} else {
